@@ -173,7 +173,7 @@ def unescape(s):
 def parse_trace(path, dirs, gz):
     """strace log of the real binary → per-message events for `drv_e8 trm`:
        m:<file>:<n>  the record of message n was written to file <file>. Plain output: the write(2) whose data is
-                     the body. gzip output (audit C30.5 — it used to be "receipt of the message", which made the checker
+                     the body + "\n" (one write since F46) or the body alone (two writes before F46). gzip output (audit C30.5 — it used to be "receipt of the message", which made the checker
                      accept nearly anything): the bytes of every write(2) to a data file are re-assembled per file and
                      decoded; the event is emitted at the write(2) that *completes the gzip member* (the one carrying
                      its trailer) whose payload holds the body as a whole line. So FIN n is accepted only after the
@@ -221,8 +221,13 @@ def parse_trace(path, dirs, gz):
                 if data == b"  V2":
                     sock = fd
                 elif fd in fds:
-                    if not gz and data in body_ids:
-                        for k in body_ids[data]:
+                    # since F46 (/repo 85f4c48) a record is ONE write(2) of body + "\n"; before it the body was a write(2) of
+                    # its own. Both are recognised here (this is a syscall-level oracle, not a tie): round 10 - the parser
+                    # knew only the old form, saw no record write at all on the committed tree and reported every FIN as
+                    # fin-before-fsync in the thorough tier (record_writes = 0 in the replay)
+                    rec = data if data in body_ids else (data[:-1] if data.endswith(b"\n") and data[:-1] in body_ids else None)
+                    if not gz and rec is not None:
+                        for k in body_ids[rec]:
                             ev.append("m:%d:%d" % (fds[fd], k))
                             stats["record_writes"] += 1
                     elif gz:
@@ -375,7 +380,12 @@ def run(ctx, rounds):
                     ctx.violation("tofile-e2e-gzip-torn", "%d gzip output file(s) end in an unfinished member after %s (exit %s) (%s)"
                                   % (ntorn, stop, tool.returncode, json.dumps(rec)),
                                   json.dumps({"opts": opts, "stop": stop, "rec": rec}) + "\n")
-            if ans.strip() != "ok":
+            if ans.strip() != "ok" and tstats["record_writes"] == 0 and nfin > 0:
+                # the parser recognised no record write at all although FINs were written: the shape of the record
+                # write changed under the parser (as F46 did) - a broken oracle, not a finding about the tool
+                broken.append("e2e strace parser: %d FIN writes but no record write recognised (round %d; record write shape changed?)"
+                              % (nfin, rnd))
+            elif ans.strip() != "ok":
                 ctx.violation("tofile-e2e-syscall", "real nsq_to_file wrote a FIN to nsqd while a written output file was not yet "
                               "fsynced (%s)" % json.dumps(rec), json.dumps({"opts": opts, "stop": stop}) + "\n" + " ".join(tr) + "\n")
             # every FIN command the tool wrote is backed by a whole line of its own (multiset: a body finished
